@@ -105,13 +105,13 @@ func init() {
 	})
 	register(&Prop{
 		ID:    "C17",
-		Rules: []func(*core.Ctx){RSlot, RCapsKey, RCapNode, RSkipTaken, ROptStack, RIgnParen, RDigitAcc, RLazyBuf, RLazyFull, RNameOnce, RParserFresh, RNoAlias, RPrescanSib, ROptWrite, RNumCheck, RMapOK, RDigitName},
+		Rules: []func(*core.Ctx){RSlot, RCapsKey, RCapNode, RSkipTaken, ROptStack, RIgnParen, RDigitAcc, RLazyBuf, RLazyFull, RNameOnce, RParserFresh, RNoAlias, RPrescanSib, ROptWrite, RNumCheck, RMapOK, RDigitName, RPrescanState},
 		Explanation: "R-SLOT (group numbers reach slot indexes only through the number->slot maps, in the writer, the replacement data, GroupByNumber and initMatch; internal GroupByNumber callers pass numbers, not dense indexes), R-CAPNODE (every capture node created by the main parse accounts for its slot like the pre-scan does), R-SKIPTAKEN (a named group gets the next number that is not taken). " +
 			"That the pre-scan and the main parse assign the same numbers in every case, name ordering and duplicate-name rules are NOT decided.",
 	})
 	register(&Prop{
 		ID:    "C18",
-		Rules: []func(*core.Ctx){RTopOnly, ROptStack, ROptSign, ROptCache, RNodeOpts, RParserFresh, ROptMemo, RPrescanSib, ROptWrite, RInlineMask},
+		Rules: []func(*core.Ctx){RTopOnly, ROptStack, ROptSign, ROptCache, RNodeOpts, RParserFresh, ROptMemo, RPrescanSib, ROptWrite, RInlineMask, RPrescanState},
 		Explanation: "R-TOPONLY (compile-time option words are only handed on whole or masked with options that cannot be set inline, so every inline-settable option is read from where inline groups put it), R-OPTSTACK (push/pop discipline of the option stack in both passes: pop kinds per arm, and per-path balance against opened groups). " +
 			"That the three spellings produce the same tree is NOT decided.",
 	})
